@@ -307,3 +307,56 @@ func zzH_C17_concurrent_requests(t *zzT) {
 	}
 	t.Reach("end")
 }
+
+// C17.b over a HISTORY: a first request whose response races with its timeout (the response may land
+// after the requester has given up but before the pending entry is gone), followed by a second request
+// on the same protocol object. Whatever happened to the first one, the second request ends with the
+// response produced for ITS payload — never with a stale response of the first — or with the timeout;
+// nothing stays blocked, no pending entry is leaked.
+//
+//zz:opt loop=4000 sched=2 join=1 blockfree=0
+//zz:thorough sched=3 budget=1800s
+//zz:stub time.Now zzStubNow
+//zz:stub time.After zz17After
+//zz:stub github.com/google/uuid.New zz17UUID
+//zz:stub github.com/libp2p/go-libp2p/core/network.WithUseTransient zzStubWithUseTransient
+func zzH_C17_followup_request(t *zzT) {
+	reps := 1
+	timeout := 2 * time.Millisecond
+	if !t.Symbolic() {
+		reps = 300
+	}
+	p := [2]byte{t.U8("payload0"), t.U8("payload1")}
+	t.Assume(p[0] != p[1])
+	for r := 0; r < reps; r++ {
+		mp, h := zz17New(t, false, timeout)
+		done := make(chan struct{}, 2)
+		go func() {
+			raw := <-h.sent
+			if !t.Symbolic() {
+				time.Sleep(timeout - time.Duration(20+r%40)*time.Microsecond) // around the first deadline
+			}
+			zz17Respond(mp, raw, zzPeerID(0))
+			done <- struct{}{}
+			raw = <-h.sent
+			zz17Respond(mp, raw, zzPeerID(0))
+			done <- struct{}{}
+		}()
+		res0, err0 := mp.sendRequestMessage(context.Background(), zzPeerID(0), "k", []byte{p[0]})
+		if err0 == nil {
+			t.Assert(res0 != nil && len(res0.Data()) == 1 && res0.Data()[0] == p[0]+1, "a delivered response is the one produced for this request")
+		} else {
+			t.Assert(err0 == errTimeout, "the only error without cancellation is the timeout")
+		}
+		<-done
+		res1, err1 := mp.sendRequestMessage(context.Background(), zzPeerID(0), "k", []byte{p[1]})
+		if err1 == nil {
+			t.Assert(res1 != nil && len(res1.Data()) == 1 && res1.Data()[0] == p[1]+1, "a later request never receives the response produced for an earlier one")
+		} else {
+			t.Assert(err1 == errTimeout, "the only error without cancellation is the timeout")
+		}
+		<-done
+		t.Assert(len(mp.resCh) == 0, "no pending entry is leaked")
+	}
+	t.Reach("end")
+}
